@@ -1567,11 +1567,6 @@ Proof. apply z_to_dec_inj. Qed.
 
 (* ================================================================ what does not hold (DESIGN.md ledger D18) *)
 
-(* add_group on a tag that holds a plain value: AttributeError, for every such call *)
-Lemma add_group_on_plain t it idx c s :
-  lookup (tag_str t) (items c) = Some (VStr s) -> c_add_group t (Ok it) idx c = (c, Exc EAttributeError).
-Proof. intros L. unfold c_add_group. now rewrite L. Qed.
-
 Definition w_a : container := C None [([49], VStr [97; 124; 50; 61; 98])].          (* {1: "a|2=b"} *)
 Definition w_b : container := C None [([49], VStr [97]); ([50], VStr [98])].        (* {1: "a", 2: "b"} *)
 
@@ -1583,49 +1578,23 @@ Proof.
   intros H. destruct eq_collision as (a & b & E & N). apply N. now apply H.
 Qed.
 
+(* ================================================================ the former D18 witnesses, repaired *)
+
 Definition w_msg : container := C (Some [68]) [([49], VStr [97])].                  (* FIXMessage("D", {1: "a"}) *)
 Definition w_dict : list (tag * str) := [(TInt 35, [68]); (TInt 1, [97])].           (* {35: "D", 1: "a"} *)
-
-Lemma eq_dict_raises :
-  exists other c, dict_content_eq other c /\ c_eq_dict other c = Exc ETagNotFound.
-Proof.
-  exists w_dict, w_msg. split; [|vm_compute; reflexivity]. split; [vm_compute; reflexivity|].
-  constructor; [left; vm_compute; reflexivity|]. constructor; [right; reflexivity|constructor].
-Qed.
-
 Definition w_msg2 : container := C (Some [68]) [([51; 53], VStr [68]); ([49], VStr [97])].   (* {35: "D", 1: "a"} *)
 Definition w_dict2 : list (tag * str) := [(TInt 35, [88]); (TInt 1, [97])].                  (* {35: "X", 1: "a"} *)
-
-Lemma eq_dict_framing_value :
-  exists other c, dict_content_eq other c /\ c_eq_dict other c = Ok false.
-Proof.
-  exists w_dict2, w_msg2. split; [|vm_compute; reflexivity]. split; [vm_compute; reflexivity|].
-  constructor; [left; vm_compute; reflexivity|]. constructor; [right; reflexivity|constructor].
-Qed.
-
-Lemma eq_dict_full_refuted :
-  ~ (forall other c, dict_content_eq other c -> c_eq_dict other c = Ok true).
-Proof.
-  intros H. destruct eq_dict_raises as (o & c & D & E). rewrite (H o c D) in E. discriminate.
-Qed.
-
-Lemma add_group_plain :
-  exists t it c, c_is_group t c = Some false /\ c_add_group t (Ok it) (-1) c = (c, Exc EAttributeError).
-Proof. exists (TInt 1), empty, w_msg. split; vm_compute; reflexivity. Qed.
-
 Definition w_grp : container := C None [([55; 56], VGrp [empty; empty])].           (* {78: [{}, {}]} *)
 
-Lemma group_index_below :
-  exists t idx c g, c_get_group_list t c = Ok g /\ (idx < - Z.of_nat (length g))%Z
-                    /\ c_get_group_by_index t idx c = Exc EIndexError.
-Proof. exists (TInt 78), (-3)%Z, w_grp, [empty; empty]. repeat split; vm_compute; reflexivity. Qed.
-
-(* a non-integer tag is refused by set but accepted as a group tag *)
-Lemma group_nonint_tag :
-  exists t c', tag_ok t = false /\ c_set_group t (Ok []) empty = (c', Ok tt) /\ c_contains t c' = true
-               /\ c_add_group t (Ok empty) (-1) empty = (C None [(tag_str t, VGrp [empty])], Ok tt)
-               /\ c_query [] c' = Exc EValueError.
-Proof. exists (TStr [120]), (C None [([120], VGrp [])]). repeat split; vm_compute; reflexivity. Qed.
+Lemma repaired_witnesses :
+  c_eq_dict w_dict w_msg = Ok true /\ c_eq_dict w_dict2 w_msg2 = Ok true
+  /\ c_eq_dict [(TInt 1, [98])] w_msg = Ok false
+  /\ c_add_group (TInt 1) (Ok empty) (-1) w_msg = (w_msg, Exc EFIXMessage)
+  /\ c_get_group_by_index (TInt 78) (-3) w_grp = Exc ETagNotFound
+  /\ c_get_group_by_index (TInt 78) (-2) w_grp = Ok empty
+  /\ c_set_group (TStr [120]) (Ok []) empty = (empty, Exc EFIXMessage)
+  /\ c_add_group (TStr []) (Ok empty) (-1) empty = (empty, Exc EFIXMessage).
+Proof. repeat split; vm_compute; reflexivity. Qed.
 
 (* ================================================================ non-vacuity *)
 
@@ -1646,15 +1615,15 @@ Lemma nonvacuous :
   /\ items (var p 0) = items (var p 1)
   /\ items (var p 0) = [([49], VStr [97]); ([55; 56], VGrp [C None [([55; 57], VStr [120])]; C None []])]
   /\ c_get (TFTag ACCOUNT) DRaise (var p 1) = Ok (RvStr [97])
-  /\ framing_free [(TInt 1, [97])] /\ dict_content_eq [(TInt 1, [97])] (C None [([49], VStr [97])])
+  /\ dict_content_eq [(TInt 35, [68]); (TInt 1, [97])] (C None [([49], VStr [97])])
   /\ keys (var p 2) = [[51; 53]; [32; 53]] /\ clean (var p 2) = false.
 Proof.
   cbv zeta.
   split; [vm_compute; reflexivity|]. split; [vm_compute; reflexivity|].
   split; [vm_compute; reflexivity|]. split; [vm_compute; reflexivity|].
   split; [vm_compute; reflexivity|]. split; [vm_compute; reflexivity|].
-  split; [constructor; [vm_compute; reflexivity|constructor]|].
-  split; [split; [vm_compute; reflexivity|constructor; [right; reflexivity|constructor]]|].
+  split; [split; [vm_compute; reflexivity
+                 |constructor; [left; vm_compute; reflexivity|constructor; [right; reflexivity|constructor]]]|].
   split; vm_compute; reflexivity.
 Qed.
 
